@@ -2,13 +2,24 @@
 // SPDX-License-Identifier: GPL-2.0-only
 
 use clock_bound_shm::common::{clock_gettime_safe, CLOCK_MONOTONIC};
+#[cfg(not(aws_clock_bound_verif))]
 use chrony_candm::blocking_query_uds;
+#[cfg(aws_clock_bound_verif)]
+use verif_rt::chrony::blocking_query_uds;
 use chrony_candm::reply::{ReplyBody, Tracking};
 use chrony_candm::request::RequestBody;
 use chrony_candm::ClientOptions;
 use std::io::Read;
+#[cfg(not(aws_clock_bound_verif))]
 use std::sync::mpsc;
+#[cfg(aws_clock_bound_verif)]
+use verif_rt::mpsc;
+#[cfg(not(aws_clock_bound_verif))]
 use std::time::{Duration, Instant};
+#[cfg(aws_clock_bound_verif)]
+use std::time::Duration;
+#[cfg(aws_clock_bound_verif)]
+use verif_rt::time::Instant;
 use tracing::{debug, error, info};
 
 use crate::thread_manager::Context;
@@ -113,6 +124,9 @@ fn run_clock_error_bound_poller(
 
     // Keep on running forever until we receive the instruction to stop.
     while keep_running {
+        #[cfg(aws_clock_bound_verif)]
+        verif_rt::fault_point("poller:loop");
+
         // First, make sure we take a MONOTONIC timestamp *before* getting chronyd data. This will
         // slightly inflate the dispersion component of the clock error bound but better be
         // pessimistic and correct, than greedy and wrong. The actual error added here is expected
@@ -154,6 +168,9 @@ fn run_clock_error_bound_poller(
                     }
                 };
 
+                #[cfg(aws_clock_bound_verif)]
+                verif_rt::fault_point("poller:send");
+
                 match ctx.dbox.send(&ChannelId::ShmWriter, message) {
                     Ok(()) => (),
                     Err(_) => {
@@ -187,6 +204,8 @@ fn run_clock_error_bound_poller(
 /// Entry point to this thread.
 pub fn run(ctx: Context, phc_info: Option<PhcInfo>) {
     info!("Starting chronyd polling thread");
+    #[cfg(aws_clock_bound_verif)]
+    verif_rt::fault_point("poller:start");
     let poller = ClockErrorBoundPoller::default();
     let sleep = Duration::from_millis(1000);
     run_clock_error_bound_poller(ctx, poller, phc_info, sleep);
